@@ -38,7 +38,7 @@ def sessions_for(exe, tier, seed):
     ns = max(n // 4, 8)
 
     def fs(live, rng):
-        rb = rng.choice([1024, 2048, 4096, 8192, 30000, 61440])
+        rb = rng.choice([1024, 2048, 4096, 8192, 30000, 61440, 65536, 1 << 17])   # >= 64 KiB: window scaling in use
         return P.c09_stall_session(live, rng, rng.choice([2000, 8000, 14000, 16000, 20000, 25000, 28000, 28000, 36000, 45000]),
                                    params=dict(rcvbuf_r=rb, rcvbuf_l=rng.choice([4096, 61440]), finack_l=1, finack_r=1,
                                                sndbuf_l=rng.choice([4096, 65536, 1 << 20])))
@@ -48,7 +48,8 @@ def sessions_for(exe, tier, seed):
     def fm(live, rng):
         fl, fr = rng.choice([(1, 0), (0, 1), (1, 0), (0, 1), (1, 1), (0, 0)])
         S = P.c09_stall_session(live, rng, rng.choice([0, 50, 300, 2000]),
-                                params=dict(rcvbuf_r=rng.choice([1024, 4096, 30000, 61440]), rcvbuf_l=rng.choice([4096, 61440]),
+                                params=dict(rcvbuf_r=rng.choice([1024, 4096, 30000, 61440, 65535, 65536, 65537, 100000, 131072, 1 << 19, 1 << 20]),
+                                            rcvbuf_l=rng.choice([4096, 61440, 65536, 1 << 20]),
                                             finack_l=fl, finack_r=fr, sndbuf_l=rng.choice([4096, 65536])))
         if getattr(S, "c09", None):
             S.c09["lossfree"] = (fl, fr)
